@@ -7,6 +7,11 @@ ROOT = os.path.dirname(os.path.dirname(os.path.abspath(__file__)))
 
 TECH = "CrossHair 0.0.110 symbolic execution of the real redun functions, each path decided by z3 (bounded; see evidence)"
 
+LAB = ("SchedLab (stub S6): the real Scheduler and in-memory SQLite backend run natively without threads under a controlled "
+       "executor and event queue; the resource arithmetic (_is_job_within_limits/_consume/_release/_add_limits) and the monitors "
+       "run symbolically with the limit and per-job demand as symbolic integers; workflow shape and completion schedule (late, "
+       "early, and completion-arrives-during-an-event modes) are solver choice variables. ")
+
 CLAIMED = {
     "C06": dict(
         text="%sAsserted per run: every (task, eval hash, context hash) reaches the executor at most once unless opted out, twins get the same result/error, equal expressions under one parent create one job, the outcome is the prescribed one; with the backend cache and with cache=False." % LAB,
